@@ -252,6 +252,8 @@ pub struct Built {
     pub probes: Vec<Box<dyn ProbeCtl>>,
     pub probe_specs: Vec<ProbeSpec>,
     pub subscribe: Vec<Box<dyn Fn()>>,
+    /// the same subscriptions as `subscribe`, callable from a source's stop hook
+    pub attachers: Vec<Arc<dyn Fn() + Send + Sync>>,
     pub info: Info,
     /// number of times the user closure (map f / filter predicate / scan reducer) ran
     pub closure_calls: Arc<AtomicUsize>,
@@ -268,6 +270,7 @@ impl Drop for Built {
             p.teardown();
         }
         self.subscribe.clear();
+        self.attachers.clear();
         self.world.teardown();
     }
 }
@@ -278,6 +281,11 @@ pub fn items_for(id: usize, n: usize) -> Vec<(Val, V)> {
         (Val::one(v), v)
     })
     .collect()
+}
+
+thread_local! {
+    /// filled by mk_probes, collected by build() (keeps mk_probes' signature as it is)
+    static ATTACHERS: std::cell::RefCell<Vec<Arc<dyn Fn() + Send + Sync>>> = std::cell::RefCell::new(vec![]);
 }
 
 fn mk_probes<T: Repr + Send + Sync + 'static>(
@@ -294,6 +302,11 @@ fn mk_probes<T: Repr + Send + Sync + 'static>(
         probes.push(Box::new(Arc::clone(&p)));
         ps.push(Arc::clone(&p));
         let out = Arc::clone(output);
+        {
+            let p = Arc::clone(&p);
+            let out = Arc::clone(&out);
+            ATTACHERS.with(|a| a.borrow_mut().push(Arc::new(move || p.subscribe(&out))));
+        }
         subscribe.push(Box::new(move || p.subscribe(&out)));
     }
     // attach- / poke-from-inside-a-handler wiring
@@ -322,8 +335,16 @@ fn mk_probes<T: Repr + Send + Sync + 'static>(
 }
 
 /// sources that react to being told to stop (PuppetSpec::on_stop)
-fn wire_stop_hooks(puppets: &[Box<dyn PuppetCtl>]) {
+fn wire_stop_hooks(puppets: &[Box<dyn PuppetCtl>], attachers: &[Arc<dyn Fn() + Send + Sync>]) {
     for p in puppets.iter() {
+        if let Some((2, j)) = p.on_stop() {
+            // told to stop, the source lets another consumer (probe j) subscribe the same output
+            if let Some(a) = attachers.get(j) {
+                let a = Arc::clone(a);
+                p.set_stop_hook(Arc::new(move || a()));
+            }
+            continue;
+        }
         if let Some((what, j)) = p.on_stop() {
             if let Some(other) = puppets.iter().find(|q| q.id() == j && q.id() != p.id()) {
                 let other = other.clone_ctl();
@@ -349,6 +370,7 @@ fn wire_stop_hooks(puppets: &[Box<dyn PuppetCtl>]) {
 /// and puppets 1.. are the inners; for Tree puppets are the leaves in left-to-right order (an
 /// inner Flatten node takes one puppet for its outer first).
 pub fn build(topo: &Topo, pspecs: &[PuppetSpec], lens: &[usize], probe_specs: &[ProbeSpec]) -> Built {
+    ATTACHERS.with(|a| a.borrow_mut().clear());
     let world = World::new();
     let op = topo.op_name();
     let mut puppets: Vec<Box<dyn PuppetCtl>> = vec![];
@@ -511,7 +533,21 @@ pub fn build(topo: &Topo, pspecs: &[PuppetSpec], lens: &[usize], probe_specs: &[
         },
     }
     puppets.sort_by_key(|p| p.id());
-    wire_stop_hooks(&puppets);
+    let attachers: Vec<Arc<dyn Fn() + Send + Sync>> = ATTACHERS.with(|a| std::mem::take(&mut *a.borrow_mut()));
+    wire_stop_hooks(&puppets, &attachers);
+    // consumers that feed the source they listen to
+    for pr in probes.iter() {
+        if let Some((trigger, k, pid)) = pr.feed() {
+            if let Some(target) = puppets.iter().find(|q| q.id() == pid) {
+                let target = target.clone_ctl();
+                pr.set_hook2(Arc::new(move |t: u8, kk: usize| {
+                    if t == trigger && (t != 1 || kk == k) {
+                        target.emit_all();
+                    }
+                }));
+            }
+        }
+    }
     Built {
         world,
         topo: topo.clone(),
@@ -521,6 +557,7 @@ pub fn build(topo: &Topo, pspecs: &[PuppetSpec], lens: &[usize], probe_specs: &[
         probes,
         probe_specs: probe_specs.to_vec(),
         subscribe,
+        attachers,
         info,
         closure_calls,
         foreach_seen,
